@@ -121,6 +121,36 @@ def spec_env():
     env["lm_of"] = lambda d, acc, k, bound=None: ({int(a): [int(x) for x in b] for a, b in d.items()} ==
                                                   {v: w for v, w in S.latter_map_spec(acc).items() if bound is None or v < bound})
     env["forall_q"] = forall
+    # latter-map trimming (remove_useless): concrete twins of the map predicates and a family of small maps (with and without dangling successors)
+    env["lm_small"] = lambda d: all(0 <= len(b) <= 4 for b in d.values())
+    env["lm_sub"] = lambda d, d0: all(a in d0 and len(b) <= 4 and all(x in d0[a] for x in b) for a, b in d.items())
+    env["lm_closed"] = lambda d, t: all(len(b) >= t and all(x in d for x in b) for b in d.values())
+    env["lm_indexed"] = lambda d, pos: list(d.keys()) == sorted(d.keys(), key=lambda a: pos[a]) and len(set(pos[a] for a in d)) == len(d)
+    env["lm_contains"] = lambda d, d0, s_: all(a in d for a in s_)
+    def small_latter_maps():
+        out = []
+        for k_ in (1, 2):
+            for a_ in small_accessors(k_):
+                m = {int(a): [int(x) for x in b] for a, b in S.latter_map_spec(a_).items()}
+                out.append(m)
+                ks = list(m)
+                if len(ks) >= 2:
+                    out.append({a: list(b) for a, b in m.items() if a != ks[0]})
+                    out.append({a: list(b) for a, b in m.items() if a != ks[-1]})
+        return out
+    env["small_latter_maps"] = small_latter_maps
+    def closed_sets(m, t):
+        """the greatest closed vertex set of the map (entries counted by list position) and, when it differs, the empty one"""
+        cur = set(m)
+        while True:
+            nxt = {a for a in cur if sum(1 for x in m[a] if x in cur) >= t}
+            if nxt == cur:
+                break
+            cur = nxt
+        top = {a: 1 for a in cur}
+        return [top] if not cur else [top, {}]
+    env["closed_sets"] = closed_sets
+    env["lm_sclosed"] = lambda d, s_, t: all(a in d and sum(1 for x in d[a] if s_.get(x, 0)) >= t for a in s_ if s_[a])
     env["here"] = lambda *a: True
     env["codes"] = lambda s: [("ACGT".index(c) if c in "ACGT" and len(c) == 1 else -1) for c in s]
     env["ascents"] = lambda s: sum(i for i in range(len(s) - 1) if "ACGT".find(s[i]) < "ACGT".find(s[i + 1]))
@@ -257,7 +287,7 @@ def jsonable_args(args):
         if isinstance(v_, numpy.ndarray):
             out[k_] = v_.tolist()
         elif isinstance(v_, dict):
-            out[k_] = {str(a): [int(x) for x in b] for a, b in v_.items()}
+            out[k_] = {str(a): ([int(x) for x in b] if isinstance(b, (list, tuple)) else int(b)) for a, b in v_.items()}
         else:
             out[k_] = v_
     return out
@@ -347,6 +377,9 @@ def search(req):
                 req["input"][n_] = numpy.array(req["input"][n_])
             if n_ in req["input"] and shape == "dict":
                 req["input"][n_] = {int(a): list(b) for a, b in req["input"][n_].items()}
+        for n_, shape in c.get("ghost_params", {}).items():      # a ghost position map (key -> position) went through JSON as well
+            if n_ in req["input"] and shape == "arr" and isinstance(req["input"][n_], dict):
+                req["input"][n_] = {int(a): int(b) for a, b in req["input"][n_].items()}
         rcv = None
         if req.get("receiver"):
             rcv = cls(**req["receiver"])
